@@ -14,7 +14,7 @@ clock events, answers):
                iteration `cap` at the latest (the real loop need not terminate: a restart re-enumerates)
 impl   : real RestartPBESolver / heap search / DSLEvaluator, in process
 model  : PS.C10.solveR (driver op c10.rsession); enumerator i is handed over as the list of the first
-         cap+1 programs of a fresh clone of the implementation's i-th enumerator; the answer carries the
+         cap+1 programs of the implementation's i-th enumerator built again in the same way; the answer carries the
          Lean specification (segmented enumeration, specYields, sat, verdict, scores)
          PS.C10.RG.restartTags (driver op c10.rgrammar) for the grammar every `_restart_` built
 oracle : this file's reading of the English statement (gen.denote only): the segmented enumeration is
@@ -268,7 +268,9 @@ def run_impl(kind, case, ctx):
             ev.clear_cache(); obs.append(None); continue
         t = op[1]
         reg = {"enums": [], "snaps": []}
-        enum = Wrapped(mods[t.get("enumerator", "heap")].enumerate_prob_grammar(_pcfg(ctx["dsl"], ctx["var_types"], t)), reg, t["limits"], solver)
+        def factory(t=t):
+            return mods[t.get("enumerator", "heap")].enumerate_prob_grammar(_pcfg(ctx["dsl"], ctx["var_types"], t))
+        enum = Wrapped(factory(), reg, t["limits"], solver)
         tr = auto_type(G.ty_str(G.arrow(*ctx["var_types"], "int")))
         task = Task(tr, PBE([Example(list(i), o) for i, o in t["examples"]]))
         timeout = 0.0 if t["dl"] == "real0" else B.Deadline(full_dl(t))
@@ -280,13 +282,20 @@ def run_impl(kind, case, ctx):
         K = t["cap"] + 1
         lists, probs = [], []
         for w in reg["enums"]:
-            fresh = w.inner.clone(w.inner.G)
+            # built again the way the implementation built it: the first one by enumerate_prob_grammar, the i-th one
+            # by the clone of its predecessor with the grammar _restart_ passed (clone does not keep every
+            # constructor parameter, e.g. CDSearch.clone drops k: `inner.clone(inner.G)` would be another enumerator)
+            if w.idx == 0:
+                fresh = factory()
+            else:
+                snap = reg["snaps"][w.idx - 1]
+                fresh = reg["enums"][snap["from"]].inner.clone(snap["new"])
             n = K if w.limit() is None else min(K, w.limit())
             progs = list(itertools.islice(fresh.generator(), n))
             strs = [G.term_str(B.from_repo_program(p)) for p in progs]
             pulled = [G.term_str(B.from_repo_program(p)) for p in w.pulled]
             if pulled != strs[:len(pulled)]:
-                raise RuntimeError("an enumerator did not produce the sequence of its fresh clone (assumption: enumeration is deterministic)")
+                raise RuntimeError("an enumerator did not produce the sequence of an enumerator built again in the same way (assumption: enumeration is deterministic)")
             lists.append({"progs": progs, "terms": [B.from_repo_program(p) for p in progs], "strs": strs, "pulled": len(pulled)})
             probs.append(w.inner)
         sc = getattr(solver, "_score", None)
